@@ -152,12 +152,11 @@ func c19RouteConfig() {
 	vAssumption("route construction: every amount carried by a channel of the route <= 10 BTC (max wumbo channel; findPath enforces amt <= capacity/max_htlc per channel), fee_base_msat < 2^32 (wire width), fee rate <= 1e6 ppm, |inbound fee rate| <= C19_INRATE ppm, inbound base any int32, time-lock deltas any uint16, height < 2^31")
 }
 
-// VerifC19Route: L = 1 + choice edges.
-func VerifC19Route() {
-	c19RouteConfig()
-	L := 1 + vChoice("L", c19MaxL)
-	c19RouteBody(L)
-}
+// VerifC19Route<L>: a path of L edges (L-1 forwarding nodes).
+func VerifC19Route1() { c19RouteConfig(); c19RouteBody(1) }
+func VerifC19Route2() { c19RouteConfig(); c19RouteBody(2) }
+func VerifC19Route3() { c19RouteConfig(); c19RouteBody(3) }
+func VerifC19Route4() { c19RouteConfig(); c19RouteBody(4) }
 
 func c19RouteBody(L int) {
 	var (
